@@ -86,6 +86,7 @@ func verifC06AddRemote() {
 		// bookkeeping and statistics are arbitrary: superseding a candidate must carry all of it over
 		p.nominateOnBindingSuccess = verifBool()
 		p.renominateOnBindingSuccess = verifBool()
+		p.deferredNominationValue = verifU32() & 0xFFFFFF
 		p.bindingRequestCount = uint16(verifInt(0, 9))
 		p.requestsSent, p.requestsReceived = verifU64(), verifU64()
 		p.responsesSent, p.responsesReceived = verifU64(), verifU64()
@@ -158,7 +159,7 @@ func verifC06AddRemote() {
 			np := a.checklist[i]
 			verifAssert(np.id == ps.p.id && np.state == ps.state && np.nominated == ps.nominated && np.nominateOnBindingSuccess == ps.nomOnSucc &&
 				np.bindingRequestCount == ps.reqCount, "pair-keeps-id,state,flags")
-			verifAssert(np.renominateOnBindingSuccess == ps.renomOnSucc, "pair-keeps-its-deferred-renomination-flag")
+			verifAssert(verifAnd(np.renominateOnBindingSuccess == ps.renomOnSucc, np.deferredNominationValue == ps.p.deferredNominationValue), "pair-keeps-its-deferred-renomination-flag-and-value")
 			verifAssert(verifAnd(verifAnd(np.requestsSent == ps.reqSent, np.requestsReceived == ps.reqRecv), verifAnd(np.responsesSent == ps.respSent, np.responsesReceived == ps.respRecv)), "pair-keeps-its-check-statistics")
 			verifAssert(verifAnd(verifAnd(np.packetsSent == ps.p.packetsSent, np.bytesSent == ps.p.bytesSent), verifAnd(np.packetsReceived == ps.p.packetsReceived, np.bytesReceived == ps.p.bytesReceived)), "pair-keeps-its-traffic-counters")
 			verifAssert(np.priority() == ps.p.priority(), "pair-keeps-its-priority")
